@@ -343,3 +343,20 @@ package graph
 //@   ensures canonical: str in kindCache.dom && result != nil
 //@   ensures same: kindCache.val[str] == result
 //@   ensures kept: forall k string :: old(k in kindCache.dom) ==> k in kindCache.dom && kindCache.val[k] == old(kindCache.val[k])
+
+// IsCycle: a segment whose node is the node of one of its trunks closes a cycle. Proved for the two ends of the walk up
+// the trunk chain and in one direction for everything between: a root segment is no cycle; a segment whose own trunk
+// carries the same node (a self loop) is one; a negative answer means that every trunk the walk passed - every segment
+// strictly shallower than s that it visited - carries a different node. That the walk visits ALL trunks is the
+// chain-reachability statement the contract language cannot express (bounded: the traversal stand-ins).
+//@ func (s *PathSegment) IsCycle() bool
+//@   requires s != nil && trunkOrdered() && s.Node != nil && (forall p *PathSegment :: p != nil ==> p.Node != nil)
+//@   nomod
+//@   ensures root: s.Trunk == nil ==> !result
+//@   ensures selfLoop: s.Trunk != nil && s.Trunk.Node.ID == s.Node.ID ==> result
+//@   ensures parentAndGrandparent: !result && s.Trunk != nil ==> s.Trunk.Node.ID != s.Node.ID && (s.Trunk.Trunk != nil ==> s.Trunk.Trunk.Node.ID != s.Node.ID)
+//@   ensures witness: result ==> (exists p *PathSegment :: p != nil && p.depth < s.depth && p.Node.ID == s.Node.ID)
+//@   loop 0
+//@     invariant cursor: cursor != nil && cursor.depth < s.depth && terminal == s.Node
+//@     invariant first: cursor != s.Trunk ==> s.Trunk.Node.ID != s.Node.ID
+//@     invariant second: s.Trunk.Trunk != nil && cursor != s.Trunk && cursor != s.Trunk.Trunk ==> s.Trunk.Trunk.Node.ID != s.Node.ID
